@@ -134,9 +134,13 @@ func amfDeepBytes(nest string, n int, closed bool) []byte {
 	return b
 }
 
+// lalWriteErr: the error of the last lalWrite (the writer refused the value)
+var lalWriteErr error
+
 // lal's own writer for values it supports: flat objects of string / number / boolean, and
 // top-level string / number / boolean / null.
 func lalWrite(v *proj.AVal) ([]byte, bool) {
+	lalWriteErr = nil
 	var buf bytes.Buffer
 	switch v.K {
 	case "num":
@@ -166,7 +170,9 @@ func lalWrite(v *proj.AVal) ([]byte, bool) {
 		if !v.End {
 			return nil, false
 		}
-		rtmp.Amf0.WriteObject(&buf, opa)
+		if lalWriteErr = rtmp.Amf0.WriteObject(&buf, opa); lalWriteErr != nil {
+			return buf.Bytes(), true
+		}
 	default:
 		return nil, false
 	}
@@ -263,7 +269,8 @@ func amfDriver(env *Env) error {
 				toks = []proj.ATok{}
 			}
 			res, _ := amfDecode(v.K, b)
-			tw.Emit(M{"ev": "Enc", "sc": sc.Sc, "v": sc.V, "toks": toks, "tokOk": tok, "total": len(b), "res": res})
+			tw.Emit(M{"ev": "Enc", "sc": sc.Sc, "v": sc.V, "toks": toks, "tokOk": tok, "total": len(b), "res": res,
+				"refused": lalWriteErr != nil})
 		case "deep":
 			if env.Child == "" {
 				lines, died, stderr := RunChild("amf", &sc, env.Seed, 120)
